@@ -34,6 +34,7 @@ pub struct Generator
 	module: *mut LLVMModule,
 	combined_module: Option<*mut LLVMModule>,
 	constants: std::collections::HashMap<u32, LLVMValueRef>,
+	structures: std::collections::HashMap<String, LLVMTypeRef>,
 	global_variables: std::collections::HashMap<u32, LLVMValueRef>,
 	global_functions: std::collections::HashMap<u32, LLVMValueRef>,
 	local_parameters: std::collections::HashMap<u32, LLVMValueRef>,
@@ -72,6 +73,7 @@ impl Generator
 				module,
 				combined_module: None,
 				constants: std::collections::HashMap::new(),
+				structures: std::collections::HashMap::new(),
 				global_variables: std::collections::HashMap::new(),
 				global_functions: std::collections::HashMap::new(),
 				local_parameters: std::collections::HashMap::new(),
@@ -135,6 +137,7 @@ impl Generator
 
 		// Reset module specific metadata.
 		self.constants.clear();
+		self.structures.clear();
 		self.global_variables.clear();
 		self.global_functions.clear();
 		self.used_intrinsics.clear();
@@ -172,9 +175,29 @@ impl Generator
 		structure_name: &str,
 	) -> Result<(), anyhow::Error>
 	{
-		let name = CString::new(structure_name)?;
-		unsafe { LLVMStructCreateNamed(self.context, name.as_ptr()) };
+		self.get_structure_type(structure_name)?;
 		Ok(())
+	}
+
+	/// The type of a structure or word in the current module. Named types
+	/// are shared by all modules of the context; looking a type up by its
+	/// name could find the type of another module that happens to have the
+	/// same name, so each module keeps its own (the linker unifies them).
+	fn get_structure_type(
+		&mut self,
+		structure_name: &str,
+	) -> Result<LLVMTypeRef, anyhow::Error>
+	{
+		if let Some(structure_type) = self.structures.get(structure_name)
+		{
+			return Ok(*structure_type);
+		}
+		let name = CString::new(structure_name)?;
+		let structure_type =
+			unsafe { LLVMStructCreateNamed(self.context, name.as_ptr()) };
+		self.structures
+			.insert(structure_name.to_string(), structure_type);
+		Ok(structure_type)
 	}
 
 	/// Generate surface level IR for constants, structures and
@@ -563,18 +586,7 @@ fn declare(
 			depth: _,
 		} =>
 		{
-			let name = CString::new(&name.name as &str)?;
-			let struct_type = unsafe {
-				let x = LLVMGetTypeByName(llvm.module, name.as_ptr());
-				if !x.is_null()
-				{
-					x
-				}
-				else
-				{
-					LLVMStructCreateNamed(llvm.context, name.as_ptr())
-				}
-			};
+			let struct_type = llvm.get_structure_type(&name.name)?;
 
 			if flags.contains(DeclarationFlag::OpaqueStruct)
 			{
@@ -1404,8 +1416,7 @@ impl Generatable for ValueType
 				size_in_bytes: _,
 			} =>
 			{
-				let struct_name = CString::new(&identifier.name as &str)?;
-				unsafe { LLVMGetTypeByName(llvm.module, struct_name.as_ptr()) }
+				llvm.get_structure_type(&identifier.name)?
 			}
 			ValueType::UnresolvedStructOrWord { .. } => unreachable!(),
 			ValueType::Pointer { deref_type }
@@ -2882,8 +2893,7 @@ fn format_struct(
 	buffer.add_user_text(&struct_name.name, llvm)?;
 	buffer.add_text(" {");
 
-	let sname = CString::new(&struct_name.name as &str)?;
-	let struct_type = unsafe { LLVMGetTypeByName(llvm.module, sname.as_ptr()) };
+	let struct_type = llvm.get_structure_type(&struct_name.name)?;
 	// TODO print members
 	let _ = (argument, struct_type);
 
